@@ -9,7 +9,7 @@ import math
 import random
 import struct
 
-from .c05 import CURVES, is_prime
+from .c05 import CURVES
 from .aux_c05_con import (rsa_problems, dsa_problems, composite_p_domain, composite_q_domain, model_public, seed_len, coord_len,
                           small_x_point, no_sqrt_x, small_y_edwards_point)
 
@@ -535,9 +535,12 @@ def ecc_one_curve(ctx, H, I, ECC, kf, ec, c, r, round_):
         else:
             cases.append(("valid/bit-flipped-still-a-point", bytes(flipped), V, None, None))
         cases.append(("valid/sign-bit-flipped", bytes(good[:-1]) + bytes([good[-1] ^ 0x80]), V if x != 0 else O, None, None))
-        for lab, yv in (("y-is-p", p), ("y-is-p-plus-1", p + 1), ("y-plus-p", y + p if (y + p) >> (8 * L - 1) == 0 else p + 2)):
-            if yv >> (8 * L - 1) == 0:
-                cases.append(("y-ge-p/" + lab, yv.to_bytes(L, "little"), X, "edwards-y-ge-p", OR))
+        # y >= p that still fits the bits of the y field (255 bits / 448 bits, so that no padding bit is involved)
+        ybits = 255 if name == "Ed25519" else 448
+        sy = small_y_edwards_point(c)
+        for lab, yv, xv in (("y-is-p", p, 0), ("y-is-p-plus-1", p + 1, 0), ("small-y-plus-p", sy[1] + p, sy[0])):
+            if yv >> ybits == 0:
+                cases.append(("y-ge-p/" + lab, (yv | ((xv & 1) << (8 * L - 1))).to_bytes(L, "little"), X, "edwards-y-ge-p", OR))
         # x = 0 with the sign bit set: RFC 8032 says decoding fails (non-canonical encodings of (0, 1) and (0, -1))
         for lab, yv in (("y-is-1-with-sign-bit", 1), ("y-is-minus-1-with-sign-bit", p - 1)):
             cases.append(("non-canonical/" + lab, (yv | (1 << (8 * L - 1))).to_bytes(L, "little"), X, "edwards-x-zero-with-sign-bit", "other"))
